@@ -122,6 +122,13 @@ func h07Recipe() CharRecipe {
 		}
 		r.RequireSets = append(r.RequireSets, s)
 	}
+	if ne := vParam("e", 0); ne > 0 {
+		x := vStr("excluded", vLen("nexcluded", 0, ne))
+		for j := 0; j < len(x); j++ {
+			vAssume(x[j] >= 0x21 && x[j] < 0x7f)
+		}
+		r.ExcludeChars = x
+	}
 	fl := vChoice("flags", vParam("flags", 1))
 	switch fl {
 	case 1:
